@@ -58,22 +58,14 @@ import (
 // see the failure).  Every key is documented in c18KnownNotes with a minimal
 // reproducer.
 var KnownIssues = map[string]bool{
-	"nlri-srpolicy-length-unit":       true,
 	"nlri-flowspec-unknown-component": true,
 	"nlri-rtc-prefix-length":          true,
 	"nlri-ls-multi-topo-descriptor":   true,
 
-	"attr-aggregator-2octet-as":          true,
-	"attr-extcomm-l2-attributes":         true,
-	"attr-ip6-extcomm-unknown":           true,
-	"attr-tunnel-srbsid-empty":           true,
-	"attr-tunnel-srbsid-label-shift":     true,
-	"attr-tunnel-segment-list-no-weight": true,
-	"attr-prefix-sid-l2-service":         true,
-	"attr-mp-reach-no-nexthop":           true,
-	"attr-mp-reach-link-local-afi":       true,
-	"attr-prefix-sid-subtlv-count":       true,
-	"attr-prefix-sid-info-flags":         true,
+	"attr-aggregator-2octet-as":  true,
+	"attr-ip6-extcomm-unknown":   true,
+	"attr-mp-reach-no-nexthop":   true,
+	"attr-prefix-sid-info-flags": true,
 
 	"attr-ls-zero-value-dropped":         true,
 	"attr-ls-igp-metric-length":          true,
@@ -81,15 +73,30 @@ var KnownIssues = map[string]bool{
 	"attr-ls-local-router-id-duplicated": true,
 	"attr-ls-ctor-length":                true,
 	"attr-ls-peer-adjacency-sid-type":    true,
-	"attr-ls-igp-flags-fabricates-tlvs":  true,
 	"attr-ls-prefix-sid-dropped":         true,
 	"attr-ls-opaque-prefix-attr-dropped": true,
 	"attr-ls-flex-algo-dropped":          true,
 }
 
-// c18KnownNotes documents each key of KnownIssues: what input, what happens, which function.
-// The minimal reproducer of every key is the probe of the same name in c18Probes (run by
-// TestVerifC18Probes and replayable as {"test": "C18_attr"|"C18_nlri", "probe": key}).
+// c18Fixed lists the former KnownIssues keys that were repaired in gobgp (key -> subject of the
+// fixing commit).  Their masks are gone - the generators produce the shapes and the oracle
+// demands the right behaviour - and their probes are kept as regression tests: they must pass.
+var c18Fixed = map[string]string{
+	"nlri-srpolicy-length-unit":          "fix: apiutil: report the SR Policy NLRI length in bits",
+	"attr-extcomm-l2-attributes":         "fix: apiutil: convert extended communities without API message as unknown",
+	"attr-tunnel-srbsid-empty":           "fix: apiutil: SR policy Binding SID sub-TLV without SID no longer panics",
+	"attr-tunnel-srbsid-label-shift":     "fix: apiutil: report the MPLS Binding SID of an SR policy as the label value",
+	"attr-tunnel-segment-list-no-weight": "fix: apiutil: SR policy segment list without Weight sub-TLV",
+	"attr-prefix-sid-l2-service":         "fix: apiutil: accept the SRv6 L2 Service TLV of PREFIX_SID from the API",
+	"attr-prefix-sid-subtlv-count":       "fix: apiutil: length of an SRv6 service TLV built from the API",
+	"attr-mp-reach-link-local-afi":       "fix: apiutil: keep the link-local next hop of MP_REACH_NLRI for non-IPv6 AFIs",
+	"attr-ls-igp-flags-fabricates-tlvs":  "fix: apiutil: BGP-LS prefix attribute TLVs are independent of the IGP Flags TLV",
+}
+
+// c18KnownNotes documents each key of KnownIssues and of c18Fixed (as it was before the fix): what
+// input, what happens, which function.  The minimal reproducer of every key is the probe of the
+// same name in c18Probes (run by TestVerifC18Probes and replayable as
+// {"test": "C18_attr"|"C18_nlri", "probe": key}).
 var c18KnownNotes = map[string]string{
 	"nlri-srpolicy-length-unit": "SRPolicyNLRI (every value): MarshalNLRI copies SRPolicyNLRI.Length, which is in octets (12/24), into api.SRPolicyNLRI.length; " +
 		"UnmarshalNLRI hands that number to bgp.NewSRPolicy, which takes bits and divides by 8 -> Length 1 or 3, and Serialize of the result panics " +
@@ -118,7 +125,8 @@ var c18KnownNotes = map[string]string{
 		"sum(sub-TLV length + 4), i.e. one reserved octet per sub-TLV instead of per TLV: 0 sub-TLVs -> length 0 (reserved octet missing), 2 sub-TLVs -> one octet too many.",
 	"attr-prefix-sid-info-flags": "PREFIX_SID SRv6 Information sub-TLV with non-zero SRv6 Service SID flags: MarshalSRv6SubTLVs always emits an empty api.SRv6SIDFlags, UnmarshalSubTLVs sets Flags 0.",
 	"attr-mp-reach-no-nexthop": "MP_REACH_NLRI without next hop for a family other than flowspec (bgp.NewPathAttributeMpReachNLRI(RF_OPAQUE, nlri), next hop length 0): " +
-		"NewMpReachNLRIAttributeFromNative renders the zero netip.Addr as the string 'invalid IP', which UnmarshalAttribute rejects.",
+		"NewMpReachNLRIAttributeFromNative reports no next hop (it used to render the zero netip.Addr as the string 'invalid IP', repaired), and UnmarshalAttribute " +
+		"turns an empty next_hops into the unspecified address 0.0.0.0 / :: (its default for API clients that leave the next hop out): next hop length 0 becomes 4 / 16.",
 	"attr-mp-reach-link-local-afi": "MP_REACH_NLRI with global + link-local IPv6 next hop for a family whose AFI is not IPv6 (RFC 8950 IPv4 families, L2VPN, LS, ...): " +
 		"NewMpReachNLRIAttributeFromNative emits both next hops, UnmarshalAttribute only reads next_hops[1] when the AFI is IPv6 - the link-local address is lost (32 -> 16 octet next hop).",
 	"attr-ls-zero-value-dropped": "BGP-LS attribute TLV whose value is the zero value (admin group 0, TE metric 0, bandwidth 0, IGP metric 0, delay 0, adjacency SID 0, empty opaque / SRLG): " +
@@ -132,9 +140,11 @@ var c18KnownNotes = map[string]string{
 	"attr-ls-peer-adjacency-sid-type": "BGP-LS Peer Adjacency SID TLV (1102): bgp.NewLsTLVPeerAdjacencySID, used by the API -> native direction, sets type 1099 (Adjacency SID) - verifgen.KnownCodecIssues ls-ctor-peer-adjacency-sid-type.",
 	"attr-ls-igp-flags-fabricates-tlvs": "BGP-LS IGP Flags TLV: when igp_flags is present UnmarshalLsAttribute also sets Prefix.Opaque and Prefix.SrPrefixSID to non-nil pointers, " +
 		"so NewLsAttributeTLVs adds an Opaque Prefix Attribute and a Prefix-SID TLV that were never there (and the latter does not serialise: ls-ctor-prefix-sid).",
-	"attr-ls-prefix-sid-dropped": "BGP-LS Prefix-SID TLV: NewLsAttributeFromNative emits sr_prefix_sid / sr_prefix_sids, UnmarshalLsAttribute only keeps sr_prefix_sid when igp_flags is present " +
-		"and NewLsAttributeTLVs never looks at SrPrefixSIDs; flags and algorithm are lost in any case.",
-	"attr-ls-opaque-prefix-attr-dropped": "BGP-LS Opaque Prefix Attribute TLV: UnmarshalLsAttribute only keeps prefix.opaque when igp_flags is present.",
+	"attr-ls-prefix-sid-dropped": "BGP-LS Prefix-SID TLV: NewLsAttributeFromNative emits sr_prefix_sid / sr_prefix_sids and UnmarshalLsAttribute keeps both (it used to keep sr_prefix_sid only " +
+		"when igp_flags was present, repaired), but bgp.NewLsAttributeTLVs builds the TLV with bgp.NewLsTLVPrefixSID, which sets Length 0 and does not serialise (ls-ctor-prefix-sid), " +
+		"and never looks at SrPrefixSIDs: flags and algorithm are lost in any case.",
+	"attr-ls-opaque-prefix-attr-dropped": "BGP-LS Opaque Prefix Attribute TLV: UnmarshalLsAttribute keeps prefix.opaque (it used to do so only when igp_flags was present, repaired), " +
+		"but bgp.NewLsTLVOpaquePrefixAttr sets Length 0 and the TLV does not serialise for a non-empty value (ls-ctor-opaque-prefix-attr).",
 	"attr-ls-flex-algo-dropped": "BGP-LS Flexible Algorithm Definition / Flex-Algo Prefix Metric TLVs: converted to flex_algo_defs / fad_prefix_metrics and back into LsAttribute, " +
 		"but bgp.NewLsAttributeTLVs builds no TLV from FlexAlgoDefs / FadPrefixMetrics; the unsupported / unknown sub-TLVs of a FAD have no API field at all.",
 }
@@ -947,34 +957,10 @@ func c18AttrShapes(a bgp.PathAttributeInterface) (keys []string) {
 		if v.Value.Askind == reflect.Uint16 {
 			add("attr-aggregator-2octet-as")
 		}
-	case *bgp.PathAttributeExtendedCommunities:
-		for _, e := range v.Value {
-			if _, ok := e.(*bgp.Layer2AttributesExtended); ok {
-				add("attr-extcomm-l2-attributes")
-			}
-		}
 	case *bgp.PathAttributeIP6ExtendedCommunities:
 		for _, e := range v.Value {
 			if _, ok := e.(*bgp.UnknownIP6Extended); ok {
 				add("attr-ip6-extcomm-unknown")
-			}
-		}
-	case *bgp.PathAttributeTunnelEncap:
-		for _, t := range v.Value {
-			for _, st := range t.Value {
-				switch x := st.(type) {
-				case *bgp.TunnelEncapSubTLVSRBSID:
-					switch {
-					case x.BSID == nil || len(x.BSID.Value) == 0:
-						add("attr-tunnel-srbsid-empty")
-					case len(x.BSID.Value) == 4:
-						add("attr-tunnel-srbsid-label-shift")
-					}
-				case *bgp.TunnelEncapSubTLVSRSegmentList:
-					if x.Weight == nil {
-						add("attr-tunnel-segment-list-no-weight")
-					}
-				}
 			}
 		}
 	case *bgp.PathAttributePrefixSID:
@@ -982,12 +968,6 @@ func c18AttrShapes(a bgp.PathAttributeInterface) (keys []string) {
 			sv, ok := t.(*bgp.SRv6ServiceTLV)
 			if !ok {
 				continue
-			}
-			if sv.Type == bgp.TLVTypeSRv6L2Service {
-				add("attr-prefix-sid-l2-service")
-			}
-			if len(sv.SubTLVs) != 1 {
-				add("attr-prefix-sid-subtlv-count")
 			}
 			for _, st := range sv.SubTLVs {
 				if info, ok := st.(*bgp.SRv6InformationSubTLV); ok && info.Flags != 0 {
@@ -1011,9 +991,6 @@ func c18AttrShapes(a bgp.PathAttributeInterface) (keys []string) {
 		fs := v.SAFI == bgp.SAFI_FLOW_SPEC_UNICAST || v.SAFI == bgp.SAFI_FLOW_SPEC_VPN
 		if !fs && !v.Nexthop.IsValid() {
 			add("attr-mp-reach-no-nexthop")
-		}
-		if !fs && v.LinkLocalNexthop.IsValid() && v.AFI != bgp.AFI_IP6 {
-			add("attr-mp-reach-link-local-afi")
 		}
 	case *bgp.PathAttributeMpUnreachNLRI:
 		f := bgp.NewFamily(v.AFI, v.SAFI)
@@ -1072,8 +1049,6 @@ func c18LsTLVShapes(t bgp.LsTLVInterface) (keys []string) {
 		keys = append(keys, "attr-ls-ctor-length")
 	case *bgp.LsTLVPeerAdjacencySID:
 		keys = append(keys, "attr-ls-peer-adjacency-sid-type")
-	case *bgp.LsTLVIGPFlags:
-		keys = append(keys, "attr-ls-igp-flags-fabricates-tlvs")
 	case *bgp.LsTLVPrefixSID:
 		keys = append(keys, "attr-ls-prefix-sid-dropped")
 	case *bgp.LsTLVOpaquePrefixAttr:
@@ -1125,8 +1100,6 @@ func c18NLRIShapes(f bgp.Family, n bgp.NLRI) (keys []string) {
 		return false
 	}
 	switch v := n.(type) {
-	case *bgp.SRPolicyNLRI:
-		keys = append(keys, "nlri-srpolicy-length-unit")
 	case *bgp.FlowSpecNLRI:
 		for _, c := range v.Value {
 			if _, ok := c.(*bgp.FlowSpecUnknown); ok {
@@ -1337,6 +1310,7 @@ func init() {
 // TestVerifC18Probes keeps KnownIssues honest: every key has a note and a minimal reproducer,
 // the reproducer is recognised by the shape predicate, and it fails the oracle as long as the
 // entry is masked (a reproducer that passes means the defect is gone and the mask must go too).
+// The reproducers of the repaired issues (c18Fixed) must pass.
 func TestVerifC18Probes(t *testing.T) {
 	if os.Getenv("VERIF_REPLAY") != "" {
 		t.Skip("replay mode")
@@ -1372,9 +1346,32 @@ func TestVerifC18Probes(t *testing.T) {
 			t.Logf("known issue %s: sig=%s %s", k, f.Sig, f.Msg)
 		}
 	}
+	fixed := make([]string, 0, len(c18Fixed))
+	for k := range c18Fixed {
+		fixed = append(fixed, k)
+	}
+	sort.Strings(fixed)
+	for _, k := range fixed {
+		if _, open := KnownIssues[k]; open {
+			t.Errorf("%s is listed as fixed and as known issue", k)
+		}
+		if _, ok := c18Probes[k]; !ok || c18KnownNotes[k] == "" {
+			t.Errorf("fixed issue %s has no note or no reproducer", k)
+			continue
+		}
+		var f *verifkit.Failure
+		if g := guard("panic", "probe "+k, func() { f, _ = c18RunProbe(k, verifkit.Scratch("C18")) }); g != nil {
+			f = g
+		}
+		if f != nil {
+			t.Errorf("VERIF-FAIL fixed issue %s (%s) is back: sig=%s %s", k, c18Fixed[k], f.Sig, f.Msg)
+		}
+	}
 	for k := range c18Probes {
-		if _, ok := KnownIssues[k]; !ok {
-			t.Errorf("probe %s has no KnownIssues entry", k)
+		_, open := KnownIssues[k]
+		_, done := c18Fixed[k]
+		if !open && !done {
+			t.Errorf("probe %s has neither a KnownIssues nor a c18Fixed entry", k)
 		}
 	}
 }
